@@ -113,8 +113,104 @@ def _region_at(rline, idx):
             return r
     return 'FE'
 
+def _is_err(l):
+    return ' ERR ' in l and l.split(' ', 1)[0] in ('PARSE', 'VALIDATE', 'EXPAND')
+
+def _split_items(toks):
+    """the top-level items of a flattened token list (cut after a `}` or `;` at bracket depth 0)"""
+    items, cur, depth = [], [], 0
+    for t in toks:
+        cur.append(t)
+        if t in ('{', '(', '['):
+            depth += 1
+        elif t in ('}', ')', ']'):
+            depth -= 1
+            if depth == 0 and t == '}':
+                items.append(tuple(cur)); cur = []
+        elif t == ';' and depth == 0:
+            items.append(tuple(cur)); cur = []
+    if cur:
+        items.append(tuple(cur))
+    return items
+
+# identifiers the templates bind locally (let / pattern / closure / parameter names); a consistent renaming
+# of one of them to a name that occurs nowhere else is alpha-equivalence
+LOCALS = {'new_machine', 'old_machine', 'err', 'state_name', 'new_state', 'current', 'callback_name', 'state', 'data',
+          'm', 'event', 'payload'}
+_IDENT_RE = None
+
+def _local_rename_only(mt, it, user_words=()):
+    import re
+    global _IDENT_RE
+    if _IDENT_RE is None:
+        _IDENT_RE = re.compile(r'^[A-Za-z_][A-Za-z0-9_]*$')
+    if len(mt) != len(it):
+        return False
+    fwd = {}
+    for a, b in zip(mt, it):
+        if a == b and a not in fwd:
+            continue
+        if a not in LOCALS or a in user_words or not _IDENT_RE.match(b):
+            return False
+        if fwd.setdefault(a, b) != b:
+            return False
+    if not fwd or len(set(fwd.values())) != len(fwd):
+        return False
+    mset = set(mt)
+    if any(v in mset for v in fwd.values()):
+        return False      # the new name already means something in the expansion
+    # every occurrence of a renamed local is renamed
+    return all(fwd.get(a, a) == b for a, b in zip(mt, it))
+
+def _canon_items(toks):
+    """top-level items as a sorted list; inside an `impl` block the member items are sorted too
+    (neither order means anything to rustc)"""
+    out = []
+    for item in _split_items(toks):
+        k = 0
+        while k < len(item) and item[k] == '#':       # attributes: `#` `[` ... `]`
+            depth = 0
+            k += 1
+            while k < len(item):
+                if item[k] == '[':
+                    depth += 1
+                elif item[k] == ']':
+                    depth -= 1
+                    if depth == 0:
+                        k += 1
+                        break
+                k += 1
+        if k < len(item) and item[k] == 'impl' and item[-1] == '}':
+            depth = 0
+            open_at = None
+            for j in range(k, len(item)):
+                if item[j] in ('{', '(', '['):
+                    if item[j] == '{' and depth == 0:
+                        open_at = j
+                        break
+                    depth += 1
+                elif item[j] in ('}', ')', ']'):
+                    depth -= 1
+            if open_at is not None:
+                members = sorted(_split_items(list(item[open_at + 1:-1])))
+                item = tuple(item[:open_at + 1]) + tuple(t for mem in members for t in mem) + ('}',)
+        out.append(item)
+    return sorted(out)
+
+def _user_words(lines):
+    import re
+    out = set()
+    for l in lines:
+        if not l.startswith('T\t'):
+            out.update(re.findall(r'[A-Za-z_][A-Za-z0-9_]*', l))
+    return out
+
 def compare_one(model, impl):
-    """first difference between the model's and the implementation's dump"""
+    """first difference between the model's and the implementation's dump.
+    Two differences are not differences of anything a property reads and are only noted:
+    the wording (and phase) of the diagnostic when both sides refuse the definition, the order of
+    the top-level items of the expansion (item order in a module means nothing to rustc), and a consistent
+    renaming of a variable the generated code binds locally to a fresh name."""
     rline = None
     m2 = []
     for l in model:
@@ -124,6 +220,9 @@ def compare_one(model, impl):
             m2.append(l)
     if m2 == impl:
         return {'status': 'same'}
+    notes = []
+    if any(_is_err(l) for l in m2) and any(_is_err(l) for l in impl):
+        return {'status': 'same', 'notes': ['diagnostic-text']}
     n = max(len(m2), len(impl))
     for k in range(n):
         ml = m2[k] if k < len(m2) else '<end>'
@@ -133,6 +232,16 @@ def compare_one(model, impl):
         if ml.startswith('T\t') and il.startswith('T\t'):
             mt = ml.split('\t')[1:]
             it = il.split('\t')[1:]
+            if len(mt) == len(it) and _canon_items(mt) == _canon_items(it):
+                notes.append('item-order')
+                continue
+            if len(mt) == len(it):
+                # scope by scope: a local never crosses a top-level item
+                mi, ii = _split_items(mt), _split_items(it)
+                uw = _user_words(m2)
+                if len(mi) == len(ii) and all(a == b or _local_rename_only(a, b, uw) for a, b in zip(mi, ii)):
+                    notes.append('local-rename')
+                    continue
             j = 0
             while j < len(mt) and j < len(it) and mt[j] == it[j]:
                 j += 1
@@ -142,7 +251,7 @@ def compare_one(model, impl):
         kind = 'T2' if (ml.startswith('T\t') or il.startswith('T\t')) else 'T1'
         return {'status': 'diff', 'kind': kind, 'region': 'FE', 'line': k, 'model': ml[:300], 'impl': il[:300],
                 'fe_parts': sorted(fe_parts(m2, impl))}
-    return {'status': 'same'}
+    return {'status': 'same', 'notes': notes}
 
 def _edge_fields(l):
     # edge S -> T ev=.. p=.. g=.. u=.. b=.. a=.. ar=..
